@@ -21,7 +21,7 @@ let pid (p : Model.positive) = Z.to_string (Z.pred (z_of_pos p))
 
 (* isomorphism between the model's table [m] and the manager's table [ps]; [orig id] = the id
    existed before the operation and has been stored ever since (it must keep its identity) *)
-let iso (orig : Model.positive -> bool) (m : Model.snap) (ps : psnap) (what : string) : (unit, string * string) result =
+let iso ?(roots : (Model.positive * Model.positive) list = []) (orig : Model.positive -> bool) (m : Model.snap) (ps : psnap) (what : string) : (unit, string * string) result =
   let ints l = List.map int_of_nat l in
   let show l = String.concat " " (List.map string_of_int l) in
   if ints m.Model.s_v2l <> Array.to_list ps.v2l || ints m.Model.s_l2v <> Array.to_list ps.l2v then
@@ -51,6 +51,8 @@ let iso (orig : Model.positive -> bool) (m : Model.snap) (ps : psnap) (what : st
       in
       (* ids that existed before and survive in the model keep their id *)
       List.iter (fun (id, _) -> if orig id then bind id id) (Model.PositiveMap.elements mnodes);
+      (* further pairs that must correspond (ZBDD: the nodes of the rebuilt tautology chain, level by level) *)
+      List.iter (fun (a, b) -> bind a b) roots;
       while !err = None && not (Queue.is_empty work) do
         let a, b = Queue.pop work in
         match Model.PositiveMap.find a mnodes, Model.PositiveMap.find b inodes with
@@ -171,3 +173,99 @@ let check_order ?(kname = "bdd") (pp : psnap) (ps : psnap) (req : int list) : (u
       | Ok () -> stat "c08_orders_isomorphic" 1; Some (Ok ())
       | e -> Some e
   end
+
+(* ---- ZBDD (coq/Mgr/LevelSwapZ.v, proved in Mgr/LevelSwapZ*.v) ----------------------------------------
+   Manager::reorder brackets the closure with ZBDDCache::pre_reorder_mut / post_reorder_mut: the model's steps are
+   zchain_drop, one level_swap_zc per swap, zchain_rebuild.  The steps are performed one by one so that the ids
+   that are stored from the first table to the last can be told from re-used ones (a dropped chain node's id may be
+   taken again by a created node, in the manager as in the model); the composition is cross-checked against the
+   extracted level_swap_z / set_var_order_model_z, which are what the theorems are about. *)
+let run_steps (s0 : Model.snap) (steps : (Model.snap -> Model.snap) list) : Model.snap * (Model.positive -> bool) =
+  let orig : (string, unit) Hashtbl.t = Hashtbl.create 256 in
+  List.iter (fun (id, _) -> Hashtbl.replace orig (pid id) ()) (Model.PositiveMap.elements s0.Model.s_nodes);
+  let m =
+    List.fold_left
+      (fun s f ->
+        let s' = f s in
+        Hashtbl.filter_map_inplace
+          (fun id () -> if mem s'.Model.s_nodes (pos_of_z (Z.succ (Z.of_string id))) then Some () else None) orig;
+        s')
+      s0 steps in
+  (m, fun id -> Hashtbl.mem orig (pid id))
+
+let same_table (a : Model.snap) (b : Model.snap) =
+  List.map (fun (id, _) -> pid id) (Model.PositiveMap.elements a.Model.s_nodes)
+  = List.map (fun (id, _) -> pid id) (Model.PositiveMap.elements b.Model.s_nodes)
+  && List.map int_of_nat a.Model.s_v2l = List.map int_of_nat b.Model.s_v2l
+
+let z_hyps (pp : psnap) (what : string) : (unit, string * string) result =
+  if not (Model.zbdd_ok_b pp.snap) then
+    Error ("corr", Printf.sprintf "snapshot before the %s does not satisfy zbdd_ok_b (hypothesis of the C08_zbdd theorems)" what)
+  else if Model.zchain_ids pp.snap = None then
+    Error ("corr", Printf.sprintf "snapshot before the %s does not hold the complete tautology chain" what)
+  else Ok ()
+
+(* the rebuilt chains of the model's result and of the manager, paired level by level *)
+let chain_roots (m : Model.snap) (ps : psnap) : ((Model.positive * Model.positive) list, string * string) result =
+  match Model.zchain_ids m, Model.zchain_ids ps.snap with
+  | Some a, Some b when List.length a = List.length b -> Ok (List.combine a b)
+  | None, _ -> Error ("corr", "the model's result does not hold a complete tautology chain")
+  | _, _ -> Error ("corr", "the manager's table after the reordering does not hold a complete tautology chain")
+
+let count_changes (pp : psnap) (m : Model.snap) =
+  stat "c08_swap_new_nodes"
+    (List.length (List.filter (fun (id, _) -> not (mem pp.snap.Model.s_nodes id)) (Model.PositiveMap.elements m.Model.s_nodes)));
+  stat "c08_swap_removed_nodes"
+    (List.length (List.filter (fun (id, _) -> not (mem m.Model.s_nodes id)) (Model.PositiveMap.elements pp.snap.Model.s_nodes)))
+
+let check_z (pp : psnap) (ps : psnap) (i : int) : (unit, string * string) result =
+  let n = Array.length pp.l2v in
+  if i + 1 >= n then Error ("corr", "level swap position out of range")
+  else match z_hyps pp "swap" with
+    | Error e -> Error e
+    | Ok () ->
+      let m, orig = run_steps pp.snap [ Model.zchain_drop; (fun s -> Model.level_swap_zc s (nat i)); Model.zchain_rebuild ] in
+      stat "c08_swaps_replayed" 1;
+      stat "c08_zbdd_swaps_replayed" 1;
+      count_changes pp m;
+      stat "c08_zbdd_chain_nodes_dropped"
+        (let d = Model.zchain_drop pp.snap in
+         List.length (List.filter (fun (id, _) -> not (mem d.Model.s_nodes id)) (Model.PositiveMap.elements pp.snap.Model.s_nodes)));
+      if not (same_table m (Model.level_swap_z pp.snap (nat i))) then
+        Error ("corr", "driver: the step-by-step replay differs from Model.level_swap_z")
+      else
+        match chain_roots m ps with
+        | Error e -> Error e
+        | Ok roots ->
+          match iso ~roots orig m ps (Printf.sprintf "zbdd reorder(level_down(%d))" i) with
+          | Ok () -> stat "c08_swaps_isomorphic" 1; Ok ()
+          | e -> e
+
+let check_order_z (pp : psnap) (ps : psnap) (req : int list) : (unit, string * string) result option =
+  let n = Array.length pp.l2v in
+  let distinct = List.length (List.sort_uniq compare req) = List.length req in
+  if List.length req < 2 || (not distinct) || List.exists (fun v -> v < 0 || v >= n) req then None
+  else if pp.nnodes > max_nodes then (stat "c08_order_skipped_large" 1; None)
+  else match z_hyps pp "reordering" with
+    | Error e -> Some (Error e)
+    | Ok () ->
+      let levels = List.map (fun v -> nat pp.v2l.(v)) req in
+      let target = Model.sort_order (nat n) levels in
+      let _, swaps = Model.bubble_sort target in
+      stat "c08_orders_replayed" 1;
+      stat "c08_zbdd_orders_replayed" 1;
+      stat "c08_order_swaps" (List.length swaps);
+      let steps =
+        if swaps = [] then []
+        else (Model.zchain_drop :: List.map (fun k -> fun s -> Model.level_swap_zc s k) swaps) @ [ Model.zchain_rebuild ] in
+      let m, orig = run_steps pp.snap steps in
+      if not (same_table m (Model.set_var_order_model_z pp.snap (List.map nat req))) then
+        Some (Error ("corr", "driver: the step-by-step replay differs from Model.set_var_order_model_z"))
+      else
+        match chain_roots m ps with
+        | Error e -> Some (Error e)
+        | Ok roots ->
+          match iso ~roots orig m ps
+                  (Printf.sprintf "zbdd set_var_order [%s]" (String.concat " " (List.map string_of_int req))) with
+          | Ok () -> stat "c08_orders_isomorphic" 1; Some (Ok ())
+          | e -> Some e
